@@ -106,20 +106,21 @@ def pack(res):
 
 
 def run(ctx, prop, PROPS, LEVEL):
-    rng = ctx.rng
-    ctx.gen_consts(["dsh"])
     ctx.lean_build([PROPS, "pdshmodel"])
     ctx.audit(PROPS)
     exe_san = sched.build(ctx, san=True)
     exe = sched.build(ctx, san=False)
     cov = {"evaluations": 0, "distinct_nontrivial": 0, "samples": [],
            "rule": "one evaluation = one complete run of the unmodified dsh() (built from the working tree) under the "
-                   "controlled scheduler with one schedule; random schedules (uniform / PCT priorities / starve-the-"
-                   "dispatcher / eager-dispatcher, ~25% with POSIX-legal spurious wake-ups of pthread_cond_wait) over "
-                   "N<=8 (quick) or N<=40 (thorough), fanout 1..N+1, granularity `fan` (protocol operations only) or "
-                   "`all` (every wrapped libc/pthread call a scheduling point); thorough adds an exhaustive search of "
-                   "all schedules for N<=3, f<=2 (state-hashed DFS, every (state, choice) edge executed).  Distinct = "
-                   "distinct projected event trace; non-trivial = N>=2 and the dispatcher waited at least once"}
+                   "controlled scheduler with one schedule.  (a) exhaustive: state-hashed DFS over ALL schedules "
+                   "(every (state, choice) edge executed; state = per-thread event history + shared state) of tiny "
+                   "configurations (N, fanout, max spurious wake-ups) listed under distribution.dfs (quick: N<=3; "
+                   "thorough: all N<=3 x f<=3 with <=2 spurious wake-ups, and N=4 f=2); (b) random schedules (uniform / "
+                   "PCT priorities / starve-the-dispatcher / eager-dispatcher, ~25% with POSIX-legal spurious wake-ups "
+                   "of pthread_cond_wait) over N<=8 (quick) or N<=40 (thorough), fanout 1..N+1, granularity `fan` "
+                   "(protocol operations only) or `all` (every wrapped libc/pthread call a scheduling point), dsh and "
+                   "pdcp personality, refused connects, non-zero exit codes.  Distinct = distinct projected event "
+                   "trace; non-trivial = N>=2 and the dispatcher waited at least once"}
     dist = {"strategy": {}, "yield": {}, "with_spurious": 0, "N": {}, "dfs": [], "status": {}, "rejects": 0}
     cov["distribution"] = dist
     variant = None
@@ -195,8 +196,7 @@ def explore_all(ctx, prop, exe_san, exe, variant, cov, dist):
     if ctx.quick():
         configs = [(1, 1, 2), (2, 1, 2), (2, 2, 1), (3, 2, 0)]
     else:
-        configs = [(1, 1, 2), (1, 2, 2), (2, 1, 2), (2, 2, 2), (2, 3, 2), (3, 1, 2), (3, 2, 2), (3, 3, 1), (3, 4, 1),
-                   (4, 2, 1)]
+        configs = [(1, 1, 2), (1, 2, 2), (2, 1, 2), (2, 2, 2), (2, 3, 2), (3, 1, 2), (3, 2, 2), (3, 3, 1), (4, 2, 1)]
     configs = [(n, f, msp, "dsh") for n, f, msp in configs] + [(2, 1, 1, "pcp")]
     for n, f, msp, pers in configs:
         if enough():
@@ -221,7 +221,7 @@ def explore_all(ctx, prop, exe_san, exe, variant, cov, dist):
             ctx.notes.append("DFS N=%d f=%d cut off at %d runs" % (n, f, st["runs"]))
 
     # 2. random schedules
-    nrand = 4000 if ctx.quick() else 60000
+    nrand = 4000 if ctx.quick() else 40000
     nmax = 8 if ctx.quick() else 40
     cases = []
     for _ in range(nrand):
